@@ -125,6 +125,27 @@ def crossing_kind(ra, rb):
     return kind
 
 
+IN_EXTRA = [("lens", "sq2", ("5", "5"), 1), ("blob", "sq1", ("1/4", "1/4"), 1), ("pill", "sq1", ("1", "1/2"), 1)]
+
+
+def containment_specs(tier):
+    """`B in A` / `A in B` for the curved placements (and complements): C03"""
+    quick = tier == "quick"
+    confs = CONFIGS + IN_EXTRA
+    if quick:
+        confs = [c for c in confs if (c[0], c[1], c[2][0]) in {("lens", "sq1", "3/2"), ("blob", "sq2", "-1"), ("blob", "lens", "-1"), ("lens", "vee", "0"), ("bite", "blob", "2"), ("lens", "sq2", "5"),
+                                                               ("pill", "sq1", "1"), ("dome", "sq2", "3")}]
+    out = []
+    for A, B, sh, sc in confs:
+        out.append(dict(module="checks.curvedops", scenario="CurvedOps", params=dict(A=A, B=B, op="&", shift=list(sh), scaleB=str(sc), num="float", what="in"), time_budget=300))
+    for A, B, sh, sc in (confs if quick else CONFIGS[:6] + IN_EXTRA):
+        if quick and (A, B) not in {("lens", "sq2"), ("lens", "sq1"), ("pill", "sq1")}:
+            continue
+        out.append(dict(module="checks.curvedops", scenario="CurvedOps", params=dict(A=A, B=B, op="&", shift=list(sh), scaleB=str(sc), num="float", what="in", invA=True), time_budget=300))
+        out.append(dict(module="checks.curvedops", scenario="CurvedOps", params=dict(A=A, B=B, op="&", shift=list(sh), scaleB=str(sc), num="float", what="in", invB=True), time_budget=300))
+    return out
+
+
 class CurvedOps:
     """R = A op B for concrete operands bounded by straight pieces and quadratic arcs; p free"""
 
